@@ -257,6 +257,8 @@ std::vector<double> draw(std::mt19937& G, const Spec& s, Counters* cnt = nullptr
 				}
 				if(fam == 1)
 					return std::exp(-std::fabs(x - m) / w);
+				if(fam == 5)
+					return std::fabs(x - m) <= w ? 1.0 : 0.0;	// compact support far from the start: density exactly 0 around the origin
 				double t = (x - d0) / (d1 - d0);
 				if(t < 0 || t > 1)
 					outside++;
@@ -360,6 +362,16 @@ struct Exec
 							bad(fmt("Metropolis 2D sample (%.17g,%.17g) outside the requested domain", out[k], out[k + 1]));
 				break;
 			default: break;
+		}
+		if(s.kind == 6 && s.family == 5 && s.sample >= 2 && (uint64_t) (s.sample - 1) * s.thin >= 100)
+		{
+			// wherever the chain is, >= 100 steps without a single accepted move has probability < 1e-15 for these proposals:
+			// outside the support every move is accepted (0/0 and x/0 ratios), inside about two thirds are
+			bool all_same = true;
+			for(double v : out)
+				all_same = all_same && v == out[0];
+			if(all_same)
+				ctx.violate("C18:law:metropolis-stuck", fmt("Sample_Metropolis returned %zu identical samples (%.17g) over %llu steps: the chain never moved", out.size(), out[0], (unsigned long long) (s.sample - 1) * s.thin) + "; " + describe(s));
 		}
 		if(s.kind == 6 && out.size() != s.sample)
 			ctx.violate("C18:sample-count", fmt("Sample_Metropolis returned %zu samples, requested %u (thinning %u, burn_in %u)", out.size(), s.sample, s.thin, s.burn) + "; " + describe(s));
@@ -870,6 +882,15 @@ struct Gen
 			{
 				s.family  = (int) r.below(5);
 				s.bounded = s.family >= 2;
+				if(!for_law && r.chance(0.15))
+				{
+					// box density 8-12 proposal widths away from the origin, unbounded domain (never pooled: convergence is not the point)
+					s.family  = 5;
+					s.bounded = 0;
+					double sp = r.logrange(1e-2, 1e2);
+					s.p		  = {sp, r.sign() * sp * r.range(8, 12), sp * r.range(1.0, 2.0), 0.0, 1.0};
+					break;
+				}
 				double m, wd, d0 = 0, d1 = 1, sp;
 				if(!s.bounded)
 				{
